@@ -15,6 +15,8 @@ structure Inv (src : Array UInt8) (st : St) : Prop where
   ascii : st.ch < 0x80 → byteAt src st.off = st.ch ∧ st.rdOff = st.off + 1
   nonascii : 0x80 ≤ st.ch → st.ch ≠ eofCh → 0x80 ≤ byteAt src st.off
   decoded : st.ch = runeAt src st.off
+  width : st.ch ≠ eofCh →
+    st.rdOff = st.off + (if byteAt src st.off < 0x80 then 1 else (decodeRune src st.off).2)
 
 theorem byteAt_lt (src : Array UInt8) (i : Nat) : byteAt src i < 256 := by
   unfold byteAt
@@ -85,7 +87,7 @@ theorem next_ch (src : Array UInt8) (st : St) :
   all_goals rfl
 
 theorem next_inv' {src : Array UInt8} {st : St} (hrd : st.rdOff ≤ src.size) : Inv src (next src st) := by
-  refine ⟨?_, ?_, ?_, ?_, ?_, ?_, ?_⟩
+  refine ⟨?_, ?_, ?_, ?_, ?_, ?_, ?_, ?_⟩
   · rw [next_off, next_rdOff]
     split
     · rename_i hlt
@@ -133,6 +135,10 @@ theorem next_inv' {src : Array UInt8} {st : St} (hrd : st.rdOff ≤ src.size) : 
     split
     · rfl
     · simp only [Nat.lt_irrefl, if_false]
+  · rw [next_ch, next_off, next_rdOff]
+    split
+    · intro _; split <;> rfl
+    · intro h; exact absurd rfl h
 
 theorem next_inv {src : Array UInt8} {st : St} (h : Inv src st) : Inv src (next src st) :=
   next_inv' h.rd_le
@@ -167,14 +173,14 @@ theorem next_off_ascii {src : Array UInt8} {st : St} (h : Inv src st) (hc : st.c
 @[simp] theorem error_lineOff (st : St) (o : Nat) (m : Msg) : (st.error o m).lineOff = st.lineOff := rfl
 
 theorem Inv.error {src : Array UInt8} {st : St} (h : Inv src st) (o : Nat) (m : Msg) : Inv src (st.error o m) :=
-  ⟨h.off_le, h.rd_le, h.eof, h.adv, h.ascii, h.nonascii, h.decoded⟩
+  ⟨h.off_le, h.rd_le, h.eof, h.adv, h.ascii, h.nonascii, h.decoded, h.width⟩
 
 /-- `Inv` only talks about `ch, off, rdOff` -/
 theorem Inv.congr {src : Array UInt8} {st st' : St} (h : Inv src st)
     (h1 : st'.ch = st.ch) (h2 : st'.off = st.off) (h3 : st'.rdOff = st.rdOff) : Inv src st' :=
   ⟨by rw [h2, h3]; exact h.off_le, by rw [h3]; exact h.rd_le, by rw [h1, h2]; exact h.eof,
    by rw [h1, h2, h3]; exact h.adv, by rw [h1, h2, h3]; exact h.ascii, by rw [h1, h2]; exact h.nonascii,
-   by rw [h1, h2]; exact h.decoded⟩
+   by rw [h1, h2]; exact h.decoded, by rw [h1, h2, h3]; exact h.width⟩
 
 /-! ### the advance relation -/
 
